@@ -128,8 +128,9 @@ def tol_exp(md, h=H):
 # ------------------------------------------------------------------ forces / ICs
 def forces(n, tier):
     base = np.array([[1.0, -2.0, 0.5, 3.0, -1.0, 2.0], [0.5, 0.5, -1.5, 2.0, 0.25, -3.0],
-                     [-2.0, 1.0, 1.0, -0.5, 4.0, 0.0], [3.0, -1.0, 2.0, 0.5, -2.5, 1.5]])[:n]
-    out = {"rand6": base, "step3": base[:, :3] * 0 + base[:, :1]}
+                     [-2.0, 1.0, 1.0, -0.5, 4.0, 0.0], [3.0, -1.0, 2.0, 0.5, -2.5, 1.5], [0.7, 2.2, -1.1, -3.0, 1.0, 0.4],
+                     [-1.3, 0.6, 2.4, 1.0, -0.7, 2.0]])[:n]
+    out = {"rand6": base, "step3": base[:, :3] * 0 + base[:, :1], "zero4": base[:, :4] * 0.0}
     if tier != "quick":
         imp = np.zeros((n, 6))
         imp[:, 0] = base[:, 0]
@@ -138,11 +139,11 @@ def forces(n, tier):
 
 
 def ics(n, tier):
-    d0 = np.array([0.1, -0.2, 0.05, 0.3])[:n]
-    v0 = np.array([-3.0, 2.0, 1.0, -0.5])[:n]
-    out = {"none": (None, None, False), "d0v0": (d0, v0, False), "static": (None, None, True)}
+    d0 = np.array([0.1, -0.2, 0.05, 0.3, -0.15, 0.25])[:n]
+    v0 = np.array([-3.0, 2.0, 1.0, -0.5, 1.5, -2.5])[:n]
+    out = {"none": (None, None, False), "d0v0": (d0, v0, False), "static": (None, None, True), "v0": (None, v0, False)}
     if tier != "quick":
-        out.update({"d0": (d0, None, False), "v0": (None, v0, False)})
+        out.update({"d0": (d0, None, False)})
     return out
 
 
@@ -297,6 +298,12 @@ def run_modal(modes, order, fname, icname, tier, res, variants="all"):
         if unit_m:
             attempt("SolveUnc/mNone/rbauto", lambda: ode.SolveUnc(None, b, k, H, rf=rfarg, order=order), tu)
             attempt("SolveExp2/mNone", lambda: ode.SolveExp2(None, b, k, H, rf=rfarg, order=order), te)
+        # unsorted index vectors for the partitions
+        if len(rf) > 1:
+            attempt("SolveUnc/m1d/rfunsorted", lambda: ode.SolveUnc(m, b, k, H, rf=rf[::-1], order=order), tu)
+            attempt("SolveExp2/m1d/rfunsorted", lambda: ode.SolveExp2(m, b, k, H, rf=rf[::-1], order=order), te)
+        if len(rb) > 1:
+            attempt("SolveUnc/m1d/rbunsorted", lambda: ode.SolveUnc(m, b, k, H, rb=rb[::-1], rf=rfarg, order=order), tu)
         # bool partition vectors
         if rf:
             rfb = np.zeros(n, bool)
@@ -564,6 +571,10 @@ def modal_systems(tier):
     base4 = [rb_mode("rb0", 0.0, 2.0), el_mode("u.01", 1.0, 0.01, 1.0), el_mode("o1.5", 10.0, 1.5, 0.5), rf_mode(2.0)]
     for perm in itertools.permutations(range(4)):
         out.append([base4[i] for i in perm])
+    rfa, rfb, rfc = rf_mode(1.0), dict(rf_mode(2.0), k=9.0e5, name="rf2"), dict(rf_mode(1.0), k=2.5e6, name="rf3")
+    for sysm in ([el_mode("u.5", 1.0, 0.5, 1.0), rfa, rfb, rfc], [rfc, rfa, el_mode("o1.5", 1.0, 1.5, 2.0), rfb],
+                 [rb_mode("rb0", 0.0, 2.0), rb_mode("rb0", 0.0, 0.7), el_mode("u.01", 10.0, 0.01, 1.0), rfb, rfa]):
+        out.append(sysm)
     base3 = [rb_mode("rb.5", 0.5, 1.0), el_mode("crit", 1.0, 1.0, 2.0), rf_mode()]
     for perm in itertools.permutations(range(3)):
         out.append([base3[i] for i in perm])
